@@ -218,3 +218,28 @@ add("r19_6_pointer_width", "C19", "R19.6", "WORD_BITS",
     [("float/src/utils.rs", "    let n_words = shift / Word::BITS as usize;", "    const WORD_BITS: usize = usize::BITS as usize;\n    let n_words = shift / WORD_BITS;")])
 add("r20_4_host_sized_const", "C20", "R20.4", "u64",
     [("macros/src/parse/int.rs", "    if big.bit_len() <= 32 && !static_ {\n        let u: u32 = big.try_into().unwrap();", "    if big.bit_len() <= 64 && !static_ {\n        let u: u64 = big.try_into().unwrap();")])
+
+add("r02_6_option_ordering", "C02", "R02.6", "is_multiple_of",
+    [("integer/src/div_ops.rs", "    pub fn is_multiple_of(&self, divisor: &Self) -> bool {\n        (self % divisor).is_zero()",
+      "    pub fn is_multiple_of(&self, divisor: &Self) -> bool {\n        if self.trailing_zeros() < divisor.trailing_zeros() {\n            return false;\n        }\n        (self % divisor).is_zero()")])
+
+add("r01_6_flag_dropped", "C19", "R01.6", "add_with_carry",
+    [("integer/src/arch/generic/add.rs", "    (sum, c0 | c1)\n", "    let _ = c1;\n    (sum, c0)\n")])
+
+add("r10_8_cmp_unscaled_shift", "C06", "R10.8", "repr_cmp_fbig",
+    [("rational/src/cmp.rs", "                lhs <<= exp * B.trailing_zeros() as usize;", "                lhs <<= exp;")])
+add("r10_8_split_digits_unscaled", "C10", "R10.8", "split_digits",
+    [("float/src/utils.rs", "            i if i.is_power_of_two() => split_bits(value, pos * i.trailing_zeros() as usize),", "            i if i.is_power_of_two() => split_bits(value, pos),")])
+
+add("r13_6_strict_reduction", "C13", "R13.6", "add_in_place",
+    [("integer/src/modular/add.rs", "    if overflow || cmp::cmp_same_len(&lhs.0, modulus).is_ge() {", "    if overflow || cmp::cmp_same_len(&lhs.0, modulus).is_gt() {")])
+add("r13_7_unreduced_square", "C13", "R13.7", "sqr_normalized",
+    [("integer/src/modular/mul.rs", "        if cmp::cmp_same_len(product, modulus).is_ge() {\n            debug_assert_zero!(add::sub_same_len_in_place(product, modulus));\n        }\n        product\n    }\n}\n\n/// raw = raw^2",
+      "        product\n    }\n}\n\n/// raw = raw^2")])
+
+add("r06_9_numerator_is_one", "C06", "R06.9", "UBig>::try_from",
+    [("rational/src/convert.rs", "        } else if value.denominator.is_one() {\n            Ok(mag)", "        } else if mag.is_one() {\n            Ok(mag)")])
+
+add("r18_5_subnormal_to_zero", "C18", "R18.5", "simplest_from_f",
+    [("rational/src/simplify.rs", "        } else if $f == 0. {\n            return Some(Self::ZERO);", "        } else if !$f.is_normal() {\n            return Some(Self::ZERO);")])
+
